@@ -54,7 +54,7 @@ def run(ctx):
             if ctx.tier == "quick" and len(ks) > 3:
                 ks = sorted(set([1, len(a["lines"]), len(a["lines"]) + 1, rng.choice(list(ks))]))
             for k in ks:
-                for m in (3, 4):
+                for m in (3, 4, 5):
                     nexts_jobs.append((pi, {"text": pr["text"].replace(fname, f"n{m}_{k}_" + fname), "rows": rows, "fname": f"n{m}_{k}_" + fname, "method": m, "k": k, "policy": ["collect", "print"]}))
     nres = pmap(ctx, runloop.real_run, [j for _, j in nexts_jobs], chunksize=8)
     for (pi, job), o in zip(nexts_jobs, nres):
@@ -62,6 +62,9 @@ def run(ctx):
         if o["exc"]:
             fails.append({"kind": "collect(nexts) raised", "csvpath": job["text"], "rows": job["rows"], "k": job["k"], "exc": o["exc"]})
             continue
+        if job["method"] == 5 and o["lines"] != a["lines"][: job["k"]]:
+            fails.append({"kind": "collect(nexts=k, lines=sink) did not append the first k lines of collect() to a sink that already held rows", "csvpath": job["text"], "rows": job["rows"],
+                          "k": job["k"], "appended": o["lines"], "collect": a["lines"]})
         if job["method"] == 3 and o["lines"] != a["lines"][: job["k"]]:
             fails.append({"kind": "collect(nexts=k) is not the first k lines of collect()", "csvpath": job["text"], "rows": job["rows"],
                           "k": job["k"], "got": o["lines"], "collect": a["lines"]})
@@ -70,6 +73,9 @@ def run(ctx):
     for (pi, job), o in zip(nexts_jobs, nres):
         by.setdefault((pi, job["k"]), {})[job["method"]] = (job, o)
     for (pi, k), d in by.items():
+        if 3 in d and 5 in d and not d[3][1]["exc"] and not d[5][1]["exc"] and obs_key(d[3][1]) != obs_key(d[5][1]):
+            fails.append({"kind": "collect(nexts=k) into a sink that already holds rows leaves another state than collect(nexts=k)", "csvpath": d[3][0]["text"],
+                          "rows": d[3][0]["rows"], "k": k, "collect_nexts": obs_key(d[3][1]), "with_sink": obs_key(d[5][1])})
         if 3 in d and 4 in d and not d[3][1]["exc"] and not d[4][1]["exc"]:
             if obs_key(d[3][1]) != obs_key(d[4][1]):
                 fails.append({"kind": "collect(nexts=k) performed side effects beyond the k-th returned line", "csvpath": d[3][0]["text"],
